@@ -257,7 +257,12 @@ class IterState:
 RULE_ENUM = 'parse::Rule'
 
 
-def _labels(label):
+def _labels(label, universe=None):
+    """Rule names of a switch label; `!a|b` (complement form used for large enums) needs the universe."""
+    if label.startswith('!'):
+        if universe is None:
+            raise ValueError('complement label without universe: ' + label[:60])
+        return set(universe) - set(label[1:].split('|'))
     return set(label.split('|'))
 
 
@@ -307,10 +312,11 @@ class ShapeSim:
                 self.add_entry(p, 0, {self.rule_consts[m.group(1)]})
         changed = True
         rounds = 0
+        self.helpers = []      # other local functions that receive a pair whose rule set is known (extracted helpers)
         while changed and rounds < 12:
             changed = False
             rounds += 1
-            for p in fns:
+            for p in fns + list(self.helpers):
                 if p not in self.entry:
                     continue
                 if self.simulate(p):
@@ -325,7 +331,7 @@ class ShapeSim:
         changed = False
         status = {}
         is_as_node = path.endswith('::as_node')
-        for kind, p, ret in Explorer(fn, facts=self.fx, keep_site=True, max_visits=2).run():
+        for kind, p, ret in Explorer(fn, facts=self.fx, keep_site=True, max_visits=2, inline_new=False).run():
             if p is None:
                 continue
             rules = {}
@@ -386,7 +392,7 @@ class ShapeSim:
                     cur = rules_of(X)
                     if cur is None:
                         return
-                    labs = _labels(lab)
+                    labs = _labels(lab, cur)
                     new = cur & labs
                     rules[X] = new
                     for ik, par in iter_parent.items():
@@ -464,6 +470,23 @@ class ShapeSim:
                         rs = None
                     if self.add_entry(callee, 0, rs if rs is not None else {'?UNKNOWN'}):
                         changed = True
+                elif callee in self.fx.F and not self.fx.F[callee].macro and self.fx.F[callee].kind in ('Fn', 'AssocFn') and any(rules_of(x) is not None for x in a) \
+                        and not re.match(r'^<.* as parse::PestParse>::parse$', callee):
+                    # a local helper that is handed a pair: simulate it with that entry set
+                    for i, x in enumerate(a):
+                        rs = rules_of(x)
+                        if rs is not None:
+                            if self.add_entry(callee, i, rs):
+                                changed = True
+                    if callee not in self.helpers:
+                        self.helpers.append(callee)
+                        changed = True
+                elif last == 'filter' and len(a) >= 2 and a[1][0] == 'agg' and a[1][1].startswith('closure:'):
+                    # pairs.filter(|p| matches!(p.as_rule(), ..)): the adapter yields the accepted rules only
+                    acc = self.accepted_by(a[1][1][8:])
+                    if acc is not None:
+                        rem0 = remaining(a[0])
+                        take_sets[callval()] = (rem0 & acc) if rem0 is not None else acc
                 elif last in ('map', 'filter_map', 'peeking_take_while', 'for_each', 'any', 'all') and len(a) >= 2:
                     f = a[1]
                     src = a[0]
@@ -524,14 +547,14 @@ class ShapeSim:
         if fn is None:
             return None
         acc = set()
-        for kind, p, ret in Explorer(fn, facts=self.fx).run():
+        for kind, p, ret in Explorer(fn, facts=self.fx, inline_new=False).run():
             if kind != 'RET':
                 return None
             labs = [l for w, l in p.conds if is_call(w) and w[1].endswith('::as_rule')]
             if ret == ('const', 'true', 'bool'):
                 if len(labs) != 1:
                     return None
-                acc |= _labels(labs[0])
+                acc |= _labels(labs[0], self.all_rules)
             elif ret != ('const', 'false', 'bool'):
                 return None
         return acc
